@@ -73,3 +73,17 @@ Print Assumptions id_step_is_injective.
 (** non-vacuity: a disciplined run in which two threads release the same handle, block by block *)
 Example disciplined_run_exists : disciplined_g expected_progs 88172645463325252 ex_threads ex_sched.
 Proof. exact ex_disciplined. Qed.
+
+(** ---- the exported wrappers (export.go): every handle parameter is resolved through the table's
+    Get and the object is used only under the ok test, or the call is a bare Incref/Decref.
+    The table is regenerated from the source on every run (Gen/GenWrappers.v); together with
+    [stale_handles_are_noops] this is why a wrapper called with an unknown or released handle
+    cannot touch an object.  The defaults they return are checked on the implementation
+    (TestVerifWrappers). *)
+From GFS Require GenWrappers.
+Lemma every_exported_wrapper_guards_its_handle :
+  forallb (fun w => match snd w with GenWrappers.Unguarded => false | _ => true end) GenWrappers.wrappers = true.
+Proof. vm_compute. reflexivity. Qed.
+Lemma wrapper_table_is_not_empty : (40 <=? List.length GenWrappers.wrappers)%nat = true.
+Proof. vm_compute. reflexivity. Qed.
+Print Assumptions every_exported_wrapper_guards_its_handle.
